@@ -1,4 +1,5 @@
 import Gv.Model.Fmt.Common
+import Gv.Model.Fmt.Utf8
 /-!
 Model of `io/fasta/{lexer,parser,writer}.go` as the code is.
 
@@ -11,7 +12,12 @@ Model of `io/fasta/{lexer,parser,writer}.go` as the code is.
   modelled as it is; `fix = true` models the proposed patch (error when no sequence was read);
 * writer: `WriteAlignment` with the index based wrap `i % w == 0 && i > 0`.
 
-ASCII input assumed (UTF-8 decoding of bytes ≥ 128 is a trusted external and not modelled).
+`parse` is the parser on the byte string that the lexer has after reading every rune with `ReadRune` and
+writing it back with `WriteRune` (`Utf8.norm`); `parseBytes` is the parser on the RAW input, defined on ALL byte
+strings: the FASTA lexer compares runes with `\n`, `\r`, `>`, NUL only and builds every literal with `WriteRune`
+(see `Utf8.lean`), the parser works on the literals byte-wise (`strings.Replace`, `^( +)`, `[]uint8(sequence)`), so
+nothing else depends on rune boundaries.  A byte that is not part of a well-formed UTF-8 sequence reaches the names
+and the residues as `EF BF BD` (three bytes: lengths are byte lengths of what was WRITTEN, not of the input).
 -/
 namespace Gv.Model.Fmt.Fasta
 open Gv Gv.Model Gv.Model.Fmt
@@ -144,5 +150,8 @@ def parse (fix : Bool) (o : POpts) (s : Seq) : Outcome Aln :=
     else match b.finish (normAlphabet o.alphabet) with
       | none => .error
       | some a => .ok a
+
+/-- the parser on the raw input, ALL byte strings: `ReadRune` / `WriteRune` in front of the byte-level parser -/
+def parseBytes (fix : Bool) (o : POpts) (s : Seq) : Outcome Aln := parse fix o (Utf8.norm s)
 
 end Gv.Model.Fmt.Fasta
